@@ -41,11 +41,15 @@ func SetNVRAM(vars ...string) error {
 		return nil
 	}
 	for _, v := range vars {
-		cmd := "set"
-		if strings.HasSuffix(v, "=") {
-			cmd = "unset"
+		// name=value sets the variable, name= (or a bare name) removes it.
+		name, value, _ := strings.Cut(v, "=")
+		var err error
+		if value == "" {
+			_, err = nvram("unset", name)
+		} else {
+			_, err = nvram("set", v)
 		}
-		if _, err := nvram(cmd, v); err != nil {
+		if err != nil {
 			return err
 		}
 	}
